@@ -11,7 +11,7 @@ LOSSLESS_ASYNC = ['buffer', 'delay', 'rate_limit', 'map_async', 'timed_window', 
 
 
 class AGen(progs.Gen):
-    def __init__(self, rng, async_ops=None, sync_ops=None, max_nodes=8, sink_kinds=('sync', 'coro', 'future', 'tornado'),
+    def __init__(self, rng, async_ops=None, sync_ops=None, max_nodes=8, sink_kinds=('sync', 'coro', 'future', 'tornado', 'awaitable'),
                  zip_maxsize=1000, fail_prob=0.0, p_async=0.5):
         super().__init__(rng, ops=sync_ops or SYNC_POOL, max_nodes=max_nodes, allow_feedback=False,
                          allow_collect=False, zip_maxsize=zip_maxsize)
@@ -167,7 +167,7 @@ class XAGen(progs.XGen):
     ASYNC = ['buffer', 'delay', 'rate_limit', 'latest', 'timed_window', 'timed_window_unique', 'timed_window_unique',
              'partition_timeout']
 
-    def __init__(self, rng, async_ops=None, max_nodes=6, sink_kinds=('sync', 'coro', 'future', 'tornado')):
+    def __init__(self, rng, async_ops=None, max_nodes=6, sink_kinds=('sync', 'coro', 'future', 'tornado', 'awaitable')):
         super().__init__(rng, max_nodes=max_nodes)
         self.async_ops = async_ops or self.ASYNC
         self.async_ops = [o for o in self.async_ops if o in self.ASYNC] or self.ASYNC
